@@ -421,22 +421,129 @@ func (e *env) captureFor(enc string) *captureSchema {
 
 func (e *env) schemaFor(fi int, enc string) omniparser.Schema { return e.schemaInst(fi, enc, "") }
 
+// fx: fixtures 0..6 are vh.Fixtures() (one per format); the following ones are this harness's
+// multi-row envelope / record declarations of fixedlength2 and csv2.
+func (e *env) fx(fi int) vh.Fixture {
+	if fi < len(e.fixtures) {
+		return e.fixtures[fi]
+	}
+	return multiRowFixtures[fi-len(e.fixtures)]
+}
+
+const multiFO = `"transform_declarations": { "FINAL_OUTPUT": { "object": {
+  "a": { "xpath": "a" }, "b": { "xpath": "b" }, "c": { "xpath": "c", "keep_empty_or_null": true } } } }`
+
+func multiHdr(format string) string {
+	return `"parser_settings": { "version": "omni.2.1", "file_format_type": "` + format + `" }`
+}
+
+// multiRowFixtures: envelopes / records that span several lines (fixed row count, header/footer
+// delimited, with a one-line file header in front).  kind tells multiRowInput how to lay out rows.
+var multiRowFixtures = []vh.Fixture{
+	{Format: "fixedlength2/rows3", Schema: `{` + multiHdr("fixedlength2") + `, "file_declaration": { "envelopes": [ { "rows": 3, "columns": [
+  {"name":"a","start_pos":2,"length":14,"line_pattern":"^1"}, {"name":"b","start_pos":2,"length":14,"line_pattern":"^2"}, {"name":"c","start_pos":2,"length":14,"line_pattern":"^3"} ] } ] }, ` + multiFO + `}`},
+	{Format: "fixedlength2/header-footer", Schema: `{` + multiHdr("fixedlength2") + `, "file_declaration": { "envelopes": [
+  { "name": "FH", "header": "^F", "min": 0, "max": 1 },
+  { "name": "REC", "header": "^B", "footer": "^E", "is_target": true, "columns": [
+  {"name":"a","start_pos":2,"length":14,"line_pattern":"^1"}, {"name":"b","start_pos":2,"length":14,"line_pattern":"^2"}, {"name":"c","start_pos":2,"length":14,"line_pattern":"^3"} ] } ] }, ` + multiFO + `}`},
+	{Format: "csv2/rows3", Schema: `{` + multiHdr("csv2") + `, "file_declaration": { "delimiter": "|", "records": [ { "rows": 3, "columns": [
+  {"name":"a","index":2,"line_index":1}, {"name":"b","index":2,"line_index":2}, {"name":"c","index":2,"line_index":3} ] } ] }, ` + multiFO + `}`},
+	{Format: "csv2/header-footer", Schema: `{` + multiHdr("csv2") + `, "file_declaration": { "delimiter": "|", "records": [
+  { "name": "FH", "header": "^F", "min": 0, "max": 1 },
+  { "name": "REC", "header": "^B", "footer": "^E", "is_target": true, "columns": [
+  {"name":"a","index":2,"line_pattern":"^1"}, {"name":"b","index":2,"line_pattern":"^2"}, {"name":"c","index":2,"line_pattern":"^3"} ] } ] }, ` + multiFO + `}`},
+}
+
+// multiRowInput: nrec multi-line records for multiRowFixtures[mi]; values are letters with bytes
+// >= 0x80 mixed in at random (so that a decoder's output pieces end elsewhere than raw reads do).
+func multiRowInput(mi int, r *vh.Rng, minLen int) []byte {
+	var b bytes.Buffer
+	csv := mi >= 2
+	hf := mi == 1 || mi == 3
+	val := func(i int) []byte {
+		n := r.Between(3, 14)
+		v := make([]byte, n)
+		for k := range v {
+			v[k] = byte('a' + (i+k)%26)
+			switch r.Pick(7) {
+			case 0:
+				v[k] = byte(0xC0 + r.Pick(0x40))
+			case 1:
+				v[k] = byte(0x80 + r.Pick(0x20))
+			}
+		}
+		return v
+	}
+	if hf && r.Chance(0.7) {
+		b.WriteString("Ffile header\n")
+	}
+	for i := 0; b.Len() < minLen; i++ {
+		if hf {
+			b.WriteString("B\n")
+		}
+		for row := 1; row <= 3; row++ {
+			b.WriteString(fmt.Sprint(row))
+			if csv {
+				b.WriteString("|")
+			}
+			b.Write(val(i + row))
+			if csv {
+				b.WriteString("|x")
+			}
+			b.WriteString("\n")
+			if r.Chance(0.08) {
+				b.WriteString("\n") // blank lines are skipped by the readers
+			}
+		}
+		if hf {
+			if r.Chance(0.3) {
+				b.WriteString("9extra line\n")
+				if csv {
+					b.Truncate(b.Len() - 1)
+					b.WriteString("|z\n")
+				}
+			}
+			b.WriteString("E\n")
+		}
+	}
+	return b.Bytes()
+}
+
+// multiRowCases: long multi-line-record inputs with non-ASCII bytes under the code pages.
+func (e *env) multiRowCases(r *vh.Rng, n int) {
+	for mi := range multiRowFixtures {
+		fi := len(e.fixtures) + mi
+		for k := 0; k < n; k++ {
+			enc := []string{"iso-8859-1", "windows-1252"}[k%2]
+			in := multiRowInput(mi, r, []int{4300, 5000, 9000, 13000}[k%4]+r.Intn(900))
+			if k%5 == 4 {
+				in = append(append([]byte(nil), bom...), in...)
+			}
+			e.sum.Hist("transcript:multi-row-records")
+			e.runTranscript(fi, enc, in, []string{"whole", "whole", "chunks:4096,1000,7"}[k%3])
+		}
+		// short ones too (and utf-8 with a mark)
+		e.runTranscript(fi, "utf-8", append(append([]byte(nil), bom...), multiRowInput(mi, r, 200)...), "onebyte")
+		e.runTranscript(fi, "windows-1252", multiRowInput(mi, r, 300), "onebyte")
+	}
+}
+
 // schemaInst: inst names a separate Schema instance built from the same source.
 func (e *env) schemaInst(fi int, enc, inst string) omniparser.Schema {
-	k := e.fixtures[fi].Format + "/" + enc + inst
+	k := e.fx(fi).Format + "/" + enc + inst
 	if s, ok := e.schemas[k]; ok {
 		return s
 	}
-	src := e.fixtures[fi].Schema
+	src := e.fx(fi).Schema
 	if enc != "" {
 		src = strings.Replace(src, `"version": "omni.2.1",`, `"version": "omni.2.1", "encoding": "`+enc+`",`, 1)
 	}
 	s, err := omniparser.NewSchema("fx-"+k, strings.NewReader(src))
 	if err != nil {
-		e.sum.Fail("fixture schema "+k+" rejected by NewSchema", caseDesc{Kind: "transcript", Enc: enc, Format: e.fixtures[fi].Format}, err.Error())
+		e.sum.Fail("fixture schema "+k+" rejected by NewSchema", caseDesc{Kind: "transcript", Enc: enc, Format: e.fx(fi).Format}, err.Error())
 		s = nil
 	} else if got := s.Header().ParserSettings.Encoding; (enc == "") != (got == nil) || (got != nil && *got != enc) {
-		e.sum.Fail("fixture schema "+k+": encoding setting not in effect", caseDesc{Kind: "transcript", Enc: enc, Format: e.fixtures[fi].Format}, nil)
+		e.sum.Fail("fixture schema "+k+": encoding setting not in effect", caseDesc{Kind: "transcript", Enc: enc, Format: e.fx(fi).Format}, nil)
 		s = nil
 	}
 	e.schemas[k] = s
@@ -582,7 +689,7 @@ func modeLabel(m string) string {
 // runTranscript compares (bytes, enc) with (utf8_of(bytes), utf-8) on one built-in format.
 func (e *env) runTranscript(fi int, enc string, in []byte, mode string) {
 	d := e.mkDesc("transcript", enc, in, mode)
-	d.Format = e.fixtures[fi].Format
+	d.Format = e.fx(fi).Format
 	s, ref := e.schemaFor(fi, enc), e.schemaFor(fi, "utf-8")
 	if s == nil || ref == nil {
 		return
@@ -608,6 +715,9 @@ func (e *env) runTranscript(fi int, enc string, in []byte, mode string) {
 	}
 	if nrec > 0 {
 		e.sum.Hist("transcript:delivers-records")
+		if strings.Contains(d.Format, "/") {
+			e.sum.Hist(fmt.Sprintf("transcript:delivers-records:%s:%d+", d.Format, nrec/50*50))
+		}
 	}
 	if ok, i := sameSteps(a, b); !ok {
 		detail := map[string]interface{}{"first_difference_at": i, "with_encoding": a, "preconverted_utf8": b, "preconverted_hex": hex.EncodeToString(conv)}
@@ -874,7 +984,7 @@ func (e *env) asciiPrefixCases(r *vh.Rng) {
 // transcript they give alone.  plan[i] says which transform the i-th Read goes to; the second
 // transform is created (NewTransform) at its first use, i.e. while the first is mid-stream.
 func (e *env) runInterleaved(fi int, enc string, inA, inB []byte, specA, specB *longSpec, same bool, plan []int) {
-	d := caseDesc{Kind: "interleave", Enc: enc, Format: e.fixtures[fi].Format, SameSchema: same, Plan: plan, Mode: "whole"}
+	d := caseDesc{Kind: "interleave", Enc: enc, Format: e.fx(fi).Format, SameSchema: same, Plan: plan, Mode: "whole"}
 	if specA != nil {
 		d.Long, d.Long2 = specA, specB
 	} else {
@@ -1172,6 +1282,8 @@ func main() {
 	e.xmlPrologCases(r)
 	// 4e. two transforms of one encoding alive at the same time
 	e.interleaveCases(r)
+	// 4f. records spanning several lines (fixedlength2 / csv2), long inputs
+	e.multiRowCases(r, o.Count(8, 200))
 
 	// 5. random inputs: byte strings through the capture handler; generated and damaged fixture
 	// inputs through the formats
@@ -1235,8 +1347,8 @@ func (e *env) replay(path string) {
 	case "pipe":
 		e.runPipeX(d.Enc, in, d.Mode, d.Consumer, true)
 	case "transcript":
-		for fi, fx := range e.fixtures {
-			if fx.Format == d.Format {
+		for fi := 0; fi < len(e.fixtures)+len(multiRowFixtures); fi++ {
+			if e.fx(fi).Format == d.Format {
 				e.runTranscript(fi, d.Enc, in, d.Mode)
 			}
 		}
